@@ -214,9 +214,28 @@ class Graph:
                 self.edges.append((prev, n, "seq", idx))
                 prev = n
             self.block_out[idx] = prev
+        # coroutine bodies (async fn / async block): bb0 dispatches on the saved state.  Rebuild the source-level
+        # CFG: keep only the "unresumed" arm (state 0) at the dispatch and link every suspend point (a block
+        # that stores state k >= 3 and returns) to the dispatch target of state k.
+        resume_target = {}
+        b0 = fn.blocks.get(0)
+        self.coroutine = False
+        if b0 is not None and b0.kind == "switch" and re.search(r"async (block|fn body)|\{coroutine", origin(fn, b0.switch_local or "")):
+            self.coroutine = True
+            resume_target = {lab: t for lab, t in b0.succs if lab.isdigit() and int(lab) >= 3}
         for idx, b in fn.blocks.items():
             if b.cleanup:
                 continue
+            if self.coroutine and idx == 0:
+                for lab, tgt in b.succs:
+                    if lab == "0" and tgt in self.block_in:
+                        self.edges.append((self.block_out[idx], self.block_in[tgt], lab, idx))
+                continue
+            if self.coroutine and b.kind == "return":
+                for s_ in b.stmts:
+                    m = re.match(r"^discriminant\(.*\) = (\d+);$", s_)
+                    if m and m.group(1) in resume_target and resume_target[m.group(1)] in self.block_in:
+                        self.edges.append((self.block_out[idx], self.block_in[resume_target[m.group(1)]], "resume", idx))
             for lab, tgt in b.succs:
                 if tgt in self.block_in:
                     # jump threading for `matches!` / `&&` / `||` lowering: a block that sets a flag to a
@@ -257,7 +276,14 @@ class Graph:
         return None
 
     def return_nodes(self):
-        return [self.block_out[i] for i, b in self.fn.blocks.items() if not b.cleanup and b.kind == "return"]
+        out = []
+        for i, b in self.fn.blocks.items():
+            if b.cleanup or b.kind != "return":
+                continue
+            if getattr(self, "coroutine", False) and any(re.match(r"^discriminant\(.*\) = ([3-9]|\d\d+);$", s_) for s_ in b.stmts):
+                continue
+            out.append(self.block_out[i])
+        return out
 
     def describe(self, n):
         idx, tag = self.nodes[n]
